@@ -168,7 +168,7 @@ def check(run):
                                          r["desc"], r["sc"], r.get("dec", {}).get("class"))})
                     continue
                 broken.append("correspondence: wrapper model and implementation disagree on %s" % str(r)[:600])
-                findings.append({"kind": "model-code-disagreement", "case": r, "what": "lz4 wrapper output differs from the proved model on input %s" % (r.get("x") or r.get("input"))[:80]})
+                findings.append({"kind": "model-code-disagreement", "case": r, "what": "lz4 wrapper output differs from the proved model on input %s" % str(r.get("x") or r.get("input") or r.get("desc") or {k: v for k, v in r.items() if k in ("kind", "fmt", "len", "class", "id")})[:160]})
 
     run.coverage["evaluations"] = evaluations + len(terms)
     run.coverage["traces_validated_against_impl"] = len(terms)
